@@ -51,6 +51,12 @@ func memSort(leafSort string, levels int) string {
 // locOfRef builds the location denoted by a plain reference p to a value of type t.
 func locOfRef(p string, t types.Type) *Loc {
 	l := &Loc{typ: t}
+	if key, ok := specialNamed(t); ok {
+		for _, lf := range shapeOf(t) {
+			l.accs = append(l.accs, Acc{mem: "H|" + key + "|" + lf.Path, idx: []string{p}, leaf: lf})
+		}
+		return l
+	}
 	switch u := t.Underlying().(type) {
 	case *types.Struct:
 		key := structKey(t)
@@ -73,6 +79,9 @@ func locOfRef(p string, t types.Type) *Loc {
 }
 
 func elemKey(t types.Type) string {
+	if key, ok := specialNamed(t); ok {
+		return key
+	}
 	if isStruct(t) {
 		return structKey(t)
 	}
@@ -81,6 +90,22 @@ func elemKey(t types.Type) string {
 
 // locField: field i of a struct location.
 func locField(l *Loc, i int) *Loc {
+	if key, ok := specialNamed(l.typ); ok {
+		// field of an abstractly modelled library struct: separate opaque memory
+		st := l.typ.Underlying().(*types.Struct)
+		ft := st.Field(i).Type()
+		n := &Loc{typ: ft}
+		var idx []string
+		if len(l.accs) > 0 {
+			idx = l.accs[0].idx
+		} else {
+			idx = []string{"0"}
+		}
+		for _, lf := range shapeOf(ft) {
+			n.accs = append(n.accs, Acc{mem: "X|" + key + "." + st.Field(i).Name() + "|" + lf.Path, idx: idx, leaf: lf})
+		}
+		return n
+	}
 	st := l.typ.Underlying().(*types.Struct)
 	a, b := fieldRange(st, i)
 	ft := st.Field(i).Type()
@@ -195,6 +220,14 @@ func (c *Ctx) sel(arr, idx string) string {
 			// do not expand
 		}
 		break
+	}
+	if lz, ok := c.lazyArr[a]; ok {
+		key := a + "@" + idx
+		if !c.lazyDone[key] {
+			c.lazyDone[key] = true
+			// pointwise instance of the defining axiom of a copied array
+			c.asserts = append(c.asserts, eq(app("select", a, idx), lz(idx)))
+		}
 	}
 	return app("select", a, idx)
 }
